@@ -64,8 +64,11 @@ THEOREMS = [
      "announced (hd_headers (st_head s)) = None /\\ assoc s_connection (hd_headers (st_head s)) = Some (B \"close\") /\\ "
      "parse_closing (map (fun h => q_method (h_q h)) (hs ++ [h])) (written (map Some (ss ++ [s]))) = Some (map observable (ss ++ [s]))"),
     ("stream_body_announces",
-     "forall (content : bytes) (r : request), fst (stream_body_future true content r) = "
-     "Some (N.of_nat (length (concat (snd (stream_body_future true content r)))))"),
+     "forall (content : bytes) (r : request) (f : option N * list bytes), stream_body_future true content r = Some f -> "
+     "fst f = Some (N.of_nat (length (concat (snd f))))"),
+    ("stream_body_refuses",
+     "forall (content : bytes) (r : request), stream_body_future true content r = None <-> "
+     "exists s e, sanitize_range (header (B \"range\") r) = Ok (Some (s, e)) /\\ N.of_nat (length content) <= s"),
     ("unread_body",
      "forall (Q : Type) (q_method : Q -> N) (q_content_length : Q -> option bytes) (h : hreq Q) (lim : option N), "
      "let declared := body_length (q_method (h_q h)) (q_content_length (h_q h)) in "
@@ -124,8 +127,8 @@ THEOREMS = [
      "(exists s, w_send_v0 M_GET w_te = Ok s /\\ parse_responses [M_GET] (wire s) = None) /\\ "
      "(exists s, w_send M_GET w_te = Ok s /\\ option_map (map p_body) (parse_responses [M_GET] (wire s)) = Some [B \"with te\"])"),
     ("stream_body_range_v0_refuted",
-     "exists content r, fst (stream_body_future false content r) <> "
-     "Some (N.of_nat (length (concat (snd (stream_body_future false content r)))))"),
+     "exists content r f, stream_body_future false content r = Some f /\\ "
+     "fst f <> Some (N.of_nat (length (concat (snd f))))"),
 ]
 RULE = ("(a) histories of 1-12 requests on ONE loopback connection handled by the public kvarn::handle_connection (6 quick / 1000 thorough also "
         "by a RunConfig::execute server on a loopback port taken from the kernel), each request sent after the previous response was read: "
